@@ -294,8 +294,25 @@ func constEq(a, b *Term) bool {
 }
 
 // liftIte2 applies f over ite leaves when at most a handful of constant leaves are involved.
+// liftable: a (small) tree of ites whose leaves are all constants - a "guarded constant". Operations with a
+// constant other operand are pushed to the leaves, so guarded constants stay guarded constants.
 func (tb *TB) liftable(a *Term) bool {
-	return a.Op == "ite" && a.Args[1].IsConst() && a.Args[2].IsConst()
+	if a.Op != "ite" {
+		return false
+	}
+	n := 0
+	return constTree(a, &n)
+}
+
+func constTree(a *Term, n *int) bool {
+	if a.IsConst() {
+		*n++
+		return *n <= 32
+	}
+	if a.Op != "ite" {
+		return false
+	}
+	return constTree(a.Args[1], n) && constTree(a.Args[2], n)
 }
 
 // liftable1: unary operators are pushed through any (shallow) ite so that "convert then select" and
